@@ -131,12 +131,16 @@ FormOf(sc, i) == CASE sc.fl = "rkht1" -> "hash"
                    [] sc.fl = "hab"   -> (IF sc.ca = "all" \/ (sc.ca = "alt" /\ i % 2 = 0) THEN "ca" ELSE "crt")
                    [] OTHER           -> (IF sc.ca = "all" THEN "pubca" ELSE "pub")
 RevK(sc, i) == TargetK(sc, sc.n + 1 - i)                   \* the reversed list (what an AHAB table holds before it is cleared)
-InitSlots(sc) == [i \in 1..sc.m |-> Slot(IF sc.clear THEN RevK(sc, i) ELSE FirstK(sc, i), CaOf(sc.fl, FormOf(sc, i)))]
+\* the key lists a PFR page is handed (pool positions)
+PfrIds(id)   == CASE id = 1 -> <<1, 2, 3>> [] id = 2 -> <<3, 1>> [] id = 3 -> <<2>> [] id = 4 -> <<4, 3, 2, 1>>
+PfrList(c, id) == [i \in 1..Len(PfrIds(id)) |-> Key(c, PfrIds(id)[i])]
+InitSlots(sc) == IF Whole(sc.fl) THEN [i \in 1..sc.m |-> Slot(Key(sc.hcls, PfrIds(sc.lh)[i]), FALSE)]     \* the list whose value the page HELD
+                 ELSE [i \in 1..sc.m |-> Slot(IF sc.clear THEN RevK(sc, i) ELSE FirstK(sc, i), CaOf(sc.fl, FormOf(sc, i)))]
 TabSels(n) == IF Full THEN FewSel(n) \cup {[i \in 1..n |-> i]} ELSE {s \in Sel(n) : s = [i \in 1..n |-> i] \/ s = [i \in 1..n |-> 5 - i]}
 TabCls(fl) == IF Full THEN ClsOf(RotOfFl(fl))
               ELSE CASE Indexed(fl) -> {"rsa2048"} [] fl = "hab" -> {"rsa2048", "p521"} [] fl = "ahab" -> {"p256", "rsa2048"} [] OTHER -> {"p384"}
 ScenBase == [fl |-> "none", origin |-> "new", m |-> 0, cls |-> "none", n |-> 0, sel |-> <<>>, repl |-> 0, repl2 |-> 0, old |-> "O", ca |-> "none",
-             cert |-> "none", used |-> 0, clear |-> FALSE, peek |-> FALSE, la |-> 0, lb |-> 0]
+             cert |-> "none", used |-> 0, clear |-> FALSE, peek |-> FALSE, la |-> 0, lb |-> 0, fam |-> "", hcls |-> "none", lh |-> 0]
 IdSel(n) == [i \in 1..n |-> i]
 \* indexed builders (RKHTv1, CertBlockV1): the order of the writes is FREE.  ro = <<slot written twice, what its first write puts, a SECOND slot
 \* that is written twice (thorough)>>
@@ -187,12 +191,28 @@ LstScenOK(sc) == /\ (sc.old = "other" => sc.n >= 2)
                  /\ (Full \/ sc.origin # "parsed" \/ sc.fl # "hab" \/ (sc.ca = "none" /\ sc.cls = "rsa2048" /\ sc.old = "O"))
                  /\ (IsRsa(sc.cls) /\ sc.fl = "ahab2" => FALSE)
 \* a PFR page object is exported with list A, with list B, with list A again (the ROTKH field is each time that of the list handed over)
-PfrIds(id)   == CASE id = 1 -> <<1, 2, 3>> [] id = 2 -> <<3, 1>> [] id = 3 -> <<2>> [] id = 4 -> <<4, 3, 2, 1>>
-PfrList(c, id) == [i \in 1..Len(PfrIds(id)) |-> Key(c, PfrIds(id)[i])]
 PfrScens == {[ScenBase EXCEPT !.fl = fc[1], !.cls = fc[2], !.la = a, !.lb = b] :
                 fc \in {<<"pfr1", c>> : c \in (IF Full THEN RsaClasses ELSE {"rsa2048"})} \cup {<<"pfr21", "p256">>, <<"pfr21", "p384">>},
                 a \in 1..4, b \in 1..4}
+\* ... and a page object that HELD the value of another key list before - it was loaded from a configuration that carries a ROTKH or parsed a
+\* binary that does - is exported with list A (class cls), with list B (of the class of the held list), with A again: EVERY family of the device
+\* table that has a ROTKH field x every key type the field takes x every key type of the held list (the other hash width where the family has
+\* two) x both ways of coming to hold it.  What the field held before never shows: the value is that of the list handed over, zero padded.
+\* <<la, lh>>: the list the page is exported with, the list whose value it held (3 keys over 1, 1 over 4, 4 over 2, 2 over 3)
+HeldCombos == <<<<1, 3>>, <<3, 4>>, <<4, 2>>, <<2, 1>>>>
+PfrCls(fl) == IF fl = "pfr21" THEN {"p256", "p384"} ELSE (IF Full THEN RsaClasses ELSE {"rsa2048"})
+ClsIdx(c)  == CASE c \in {"p384", "rsa3072"} -> 1 [] c = "rsa4096" -> 2 [] OTHER -> 0
+PfrDevs(fl) == {i \in 1..Len(Devices) : Devices[i].pfr /\ RotOfDev(Devices[i], "latest") = RotOfFl(fl)}
+HeldPick(i, og, c, hc) == IF Full THEN 1..4 ELSE {((i + ClsIdx(c) + 2 * ClsIdx(hc) + (IF og = "cfg" THEN 0 ELSE 1)) % 4) + 1}
+HeldScens == UNION {UNION {UNION {
+    {[ScenBase EXCEPT !.fl = fl, !.fam = Devices[i].fam, !.origin = q[1], !.cls = q[2], !.hcls = q[3], !.m = Len(PfrIds(HeldCombos[x][2])),
+                      !.la = HeldCombos[x][1], !.lh = HeldCombos[x][2], !.lb = (HeldCombos[x][1] % 4) + 1] : x \in HeldPick(i, q[1], q[2], q[3])}
+    : q \in {"cfg", "parsed"} \X PfrCls(fl) \X PfrCls(fl)} : i \in PfrDevs(fl)} : fl \in {"pfr1", "pfr21"}}
+HeldScenOK(sc) == /\ (sc.cls = sc.hcls => sc.la # sc.lh)
+                  /\ \A c \in {sc.cls, sc.hcls} : HashLen(HashOf(c)) <= Dev(sc.fam).rotkh         \* the field takes the value (bytes)
+BCls(sc) == IF sc.hcls = "none" THEN sc.cls ELSE sc.hcls
 TabScens == {sc \in IdxScens : IdxScenOK(sc)} \cup {sc \in LstScens : LstScenOK(sc)} \cup {sc \in PfrScens : sc.la # sc.lb}
+            \cup {sc \in HeldScens : HeldScenOK(sc)}
 TabInit == /\ mode = "tab" /\ Want("tab") /\ done = FALSE /\ hist = <<>> /\ Init /\ scen \in TabScens
 GInit == CaseInit \/ HistInit \/ FilesInit \/ DevInit \/ TabInit
 NSet(i)   == Cardinality({x \in 1..Len(hist) : hist[x].a = "SetSlot" /\ hist[x].i = i})
@@ -222,7 +242,7 @@ Phase2 == ~scen.clear \/ NClear = 1
 LstReady == Started /\ ~Indexed(scen.fl) /\ ~Whole(scen.fl) /\ ~MustPeek
 NAll == Cardinality({x \in 1..Len(hist) : hist[x].a = "SetAll"})
 DoSetAll == /\ Started /\ Whole(scen.fl) /\ NAll < 3 /\ (LastIs("StartT") \/ LastIs("ComputeT"))
-            /\ SetAll(PfrList(scen.cls, IF NAll = 1 THEN scen.lb ELSE scen.la))
+            /\ SetAll(IF NAll = 1 THEN PfrList(BCls(scen), scen.lb) ELSE PfrList(scen.cls, scen.la))
 DoFillRev == /\ LstReady /\ ~Phase2 /\ Len(tab.slots) < scen.n /\ ~LastIs("ComputeT")
              /\ AppendSlot(RevK(scen, Len(tab.slots) + 1), FormOf(scen, 1))
 DoClearT == LstReady /\ ~Phase2 /\ LastIs("ComputeT") /\ ClearT
@@ -255,8 +275,14 @@ DoBuild21Ud == /\ Full /\ obj.kind = "none" /\ hist = <<>>
 DoSetUserData == \E len \in (IF Full THEN {0, 8, 96} ELSE {8}) : len # obj.ud.len /\ SetUserData(len)
 DoSetConstraints == \E c \in (IF Full THEN {0, 7} ELSE {7}) : SetConstraints(c)
 Cb21Next == mode = "cb21" /\ (DoBuild21 \/ DoBuild21Ud \/ (obj.kind = "cb21" /\ (Export21 \/ Parse21 \/ DoSetUserData \/ DoSetConstraints)))
+\* "certificate blocks survive export/parse unchanged" ranges over EVERY header field the block can be given: <<version, flags word (bytes
+\* as they stand in the header), build number>> - default / other than default, each pair of fields in all four combinations; thorough: a
+\* single low bit, bit 31, another major version
+FlagsA  == <<90, 90, 165, 165>>
+HdrMenu == {<<DefVer, DefFlags, 0>>, <<DefVer, FlagsA, 3>>, <<<<1, 1>>, DefFlags, 3>>, <<<<1, 1>>, FlagsA, 0>>}
+           \cup (IF Full THEN {<<DefVer, <<0, 0, 0, 128>>, 3>>, <<<<2, 7>>, <<1, 0, 0, 0>>, 0>>} ELSE {})
 DoBuild1 == /\ obj.kind = "none" /\ hist = <<>>
-            /\ \E c \in RsaClasses : \E nu \in NU : \E img \in {0, 4660} : \E b \in {0, 3} : Build1(FirstKeys(c, nu[1]), nu[2], img, b)
+            /\ \E c \in RsaClasses : \E nu \in NU : \E img \in {0, 4660} : \E h \in HdrMenu : Build1(FirstKeys(c, nu[1]), nu[2], img, h[3], h[1], h[2])
 DoSetImageLength == \E n \in {2048} : SetImageLength(n)
 Cb1Next == mode = "cb1" /\ (DoBuild1 \/ (obj.kind = "cb1" /\ (Export1 \/ Parse1 \/ DoSetImageLength)))
 \* files: strictly alternate  Read ; Rewrite ; Read ; Rewrite ; Read ...   (the population is already in hist)
@@ -337,7 +363,7 @@ TargetReached == IsTabC /\ TabWritten /\ ~Whole(scen.fl) =>
                    act.keys = ks /\ act.term = Doc(RotOfFl(scen.fl), ks, cas) /\ act.table = DocTable(RotOfFl(scen.fl), ks, cas)
 \* a page that is exported with list A, then B, then A again hands out for A what it handed out the first time, and something else for B
 PfrBack == IsTabC /\ Whole(scen.fl) /\ TabWritten =>
-             /\ act.keys = PfrList(scen.cls, scen.la) /\ act.term = hist[3].term /\ hist[5].keys = PfrList(scen.cls, scen.lb) /\ hist[5].term # act.term
+             /\ act.keys = PfrList(scen.cls, scen.la) /\ act.term = hist[3].term /\ hist[5].keys = PfrList(BCls(scen), scen.lb) /\ hist[5].term # act.term
 \* the certificate of a v1 block points at the slot that holds its key at the end, wherever it was added
 CertPoints == IsTabC /\ TabWritten /\ scen.fl = "cb1" => act.index = scen.used
 \* ---------------------------------------------------------------- invariants of the histories
